@@ -24,6 +24,15 @@ ASSUMPTIONS = ["metric classes are plain State subclasses (instances truthy: no 
                "view merge functions do not raise"]
 
 
+def extra_obligations():
+    """ScopeMetrics.record and MetricsContext.record regenerated from /repo's metrics.py as MiniPy terms and proved to refine
+    `Metrics.record` (store / merge-by-truthiness / refused once completed / a raising merge leaves the value) and
+    `Metrics.ctxRecord` (recording never raises an Exception into user code) for arbitrary recorded values"""
+    from harness import core, regen
+
+    return regen.check("metrics", core.REPO, core.LEAN)
+
+
 def _vals(vs) -> str:
     return ",".join(mc.show_val(v) for v in vs)
 
